@@ -226,6 +226,9 @@ pub fn generate(seed: u64, n: usize, thorough: bool, _corpus: Option<&str>) -> V
         cases.push(check_program(&p, tags, if graphs { "random+graphs" } else { "random" }));
     }
     cases.extend(crate::pre_expand::model_cases(&mut r, if thorough { 4000 } else { 400 }));
+    cases.extend(crate::pre_expand::graph_cases(&mut r, if thorough { 400 } else { 40 }));
+    cases.extend(crate::pre_expand::svset_cases(&mut r, if thorough { 1500 } else { 150 }));
+    cases.extend(crate::pre_expand::program_cases(&mut r, if thorough { 3000 } else { 300 }));
     cases.extend(crate::pre_expand::fragment_cases(&mut r, if thorough { 6000 } else { 500 }));
     let _ = Exp::Number(0.0);
     cases
